@@ -93,11 +93,13 @@ def in_range(sw):
     return 0x69A0 <= sw <= 0x6BFF or sw == 0x6D00
 
 
-def run_cell(shape, plan, prep=None, iodebug=False, prelude=None):
+def run_cell(shape, plan, prep=None, iodebug=False, prelude=None, platform="ledger"):
     """fresh stack, bring-up, (prelude: another command served first, successfully, by the
     same manager), arm the plan, run the request"""
     from ..stack import Stack
-    dev = fl.make_device(shape, also=[prelude] if prelude else ())
+    dev = fl.make_device(shape, also=[prelude] if prelude else (), platform=platform)
+    if platform == "sgx":
+        dev.unlocked = True
     if prep:
         prep(dev)
     with Stack(dev, version_one=shape.v1, iodebug=iodebug) as s:
@@ -206,6 +208,15 @@ def run_shard(spec, acc):
                         continue
                     for opc in FAMILY_OPCODES[fam]:
                         check_misplaced_opcode(acc, shape, v1, k, roles[k], opc, allowed, fam)
+            # ---- the other transports (TCPSigner, SGX): what the device answers maps
+            # onto the same code whatever carries it (one status word in 32 of this shard's
+            # range, at every step of the commands these platforms have)
+            if "eartbeat" not in shape.name:
+                for k in range(K):
+                    for sw in sws[(si + k) % 32::32]:
+                        if sw == 0x9000 or (sw & 0xFF00) in (0x6100, 0x6C00):
+                            continue
+                        check_platforms_agree(acc, shape, v1, k, roles[k], sw)
             for k in range(K):
                 role = roles[k]
                 for sw in sws:
@@ -220,6 +231,23 @@ def run_shard(spec, acc):
 
 REPAIR_SWS = [0x69A0, 0x6A87, 0x6A8F, 0x6B10, 0x6B87, 0x6BFF, 0x6D00, 0x6985, 0x6E00, 0x6F00,
               0x6700, 0x9001]
+
+
+def check_platforms_agree(acc, shape, v1, k, role, sw):
+    outcomes = {}
+    for plat in ("ledger", ["tcp", "sgx"][(k + sw) % 2]):
+        reply, exc, apdus, dev, out = run_cell(shape, {k: Fault("sw", sw=sw)}, platform=plat)
+        outcomes[plat] = ((reply or {}).get("errorcode") if isinstance(reply, dict) else None,
+                          type(exc).__name__ if exc is not None else None)
+    acc.evaluations += 1
+    acc.distinct_disjoint += 1
+    acc.count("cells_compared_across_transports")
+    if len(set(outcomes.values())) != 1:
+        acc.violation("same-status-word-other-outcome-over-another-transport:%s:%s" % (
+            shape.command, role), {"shape": shape.name, "step": k, "sw": "%04x" % sw,
+                                   "outcomes": {p_: list(o_) for p_, o_ in outcomes.items()}},
+            {"shape": shape.name, "v1": v1, "k": k, "role": role,
+             "fault": ["sw", sw, None, False], "prelude": None, "platforms": True})
 
 
 def check_streak(acc, shape, roles, allowed):
@@ -438,5 +466,7 @@ def replay(case, acc):
         return
     f = case["fault"]
     fault = Fault(f[0], sw=f[1], n=f[2], processed=f[3])
+    if case.get("platforms"):
+        return check_platforms_agree(acc, shape, case["v1"], case["k"], case["role"], f[1])
     check_cell(acc, shape, case["v1"], case["k"], case["role"], fault, docs[shape.command], base,
                named, by_src, fw_all)
